@@ -170,6 +170,7 @@ def parseScope (s : String) : Option Scope :=
 def errStr : Err → String
   | .notRequest => "notrequest" | .routeFail => "routefail" | .badUpstream => "badupstream"
   | .tooDeep => "toodeep" | .forwardFail => "forwardfail" | .notResponse => "notresponse"
+  | .questionMismatch => "questionmismatch"
 
 def upStr : UpRef → String
   | .asis => "a"
